@@ -66,10 +66,16 @@ def run_tool(case, data, a, b, fa, fb):
     via = case['via']
     if via == 'func':
         out = io.BytesIO()
-        if case['kind'] == 'ipm':
-            mci_ipm_encode.mci_ipm_encode(io.BytesIO(data), out_file=out, in_encoding=a, out_encoding=b, in_format=fmt(fa), out_format=fmt(fb))
+        # the documented parameter order (in_file, out_file, in_encoding, out_encoding, in_format, out_format): by keyword
+        # and, for every other case, by position
+        positional = len(data) % 2 == 1
+        fn = mci_ipm_encode.mci_ipm_encode if case['kind'] == 'ipm' else mci_ipm_param_encode.mci_ipm_param_encode
+        if positional:
+            fn(io.BytesIO(data), out, a, b, fmt(fa), fmt(fb))
+        elif case['kind'] == 'ipm':
+            fn(io.BytesIO(data), out_file=out, in_encoding=a, out_encoding=b, in_format=fmt(fa), out_format=fmt(fb))
         else:
-            mci_ipm_param_encode.mci_ipm_param_encode(io.BytesIO(data), out, in_encoding=a, out_encoding=b, in_format=fmt(fa), out_format=fmt(fb))
+            fn(io.BytesIO(data), out, in_encoding=a, out_encoding=b, in_format=fmt(fa), out_format=fmt(fb))
         return out.getvalue()
     path = os.path.join(os.getcwd(), 'conv_%d.bin' % os.getpid())
     outp = path + '.res'
